@@ -86,6 +86,7 @@ inductive SOp where
   | seq (calls : List SCall) (x : Int) (direct : List Entry)
       -- a branch of getDifference: `direct` is dispatched without the box, position `x` is set
   | fire                                                -- the gap timer fired (`<-gapTimeout.C`)
+  | reset                                               -- a new worker (`newChannelState`) at the position the old one had persisted
   deriving DecidableEq, Repr
 
 def sstep (c : ACfg) (b : Box) : SOp → Box × List SEv
@@ -95,6 +96,7 @@ def sstep (c : ACfg) (b : Box) : SOp → Box × List SEv
     ({ b with state := if calls.contains .setBox then x else b.state },
      callEvs x (direct.map (·.id)) calls)
   | .fire => ({ b with armed := false }, [])
+  | .reset => ({ state := b.state }, [])
 
 def srun (c : ACfg) (b : Box) : List SOp → Box × List SEv
   | [] => (b, [])
@@ -162,6 +164,7 @@ def wfOp (log : List Entry) (mk : Nat → Bool) (b : Box) : SOp → Bool
   | .push e => decide (e ∈ log) || (decide (e.count = 0) && decide (0 < e.pos) && mk e.id)
   | .clear => true
   | .fire => true
+  | .reset => true
   | .seq calls x direct =>
     direct.all (fun e => decide (e ∈ log)) &&
     ((decide (calls = diffShape) &&
@@ -169,7 +172,7 @@ def wfOp (log : List Entry) (mk : Nat → Bool) (b : Box) : SOp → Bool
     || (decide (calls = emptyShape) &&
         log.all fun e => !(decide (b.state < e.pos) && decide (e.pos ≤ x)) || exempt mk e)
     || decide (calls = tooLongShape) || decide (calls = cbOnlyShape)
-    || (decide (calls = storeOnlyShape) && decide (x ≤ b.state)))
+    || (decide (calls = storeOnlyShape) && decide (x = b.state)))
 
 def wfRun (c : ACfg) (log : List Entry) (b : Box) : List SOp → Bool
   | [] => true
